@@ -32,3 +32,16 @@ Theorem C01_toric2d_vertex_face_commute_for_all_sizes :
   overlap_par (support Lx Ly v) (support Lx Ly f) = false.
 Proof. exact toric2d_vertex_face_commute. Qed.
 Print Assumptions C01_toric2d_vertex_face_commute_for_all_sizes.
+
+Theorem C01_toric2d_all_stabilizers_commute_for_all_sizes :
+  forall (Lx Ly : BinNums.Z) s s', (2 <= Lx)%Z -> (2 <= Ly)%Z -> In s (stab_coords Lx Ly) -> In s' (stab_coords Lx Ly) ->
+  ops_commute (is_vertex s) (support Lx Ly s) (is_vertex s') (support Lx Ly s') = true.
+Proof. exact toric2d_stabilizers_commute. Qed.
+Print Assumptions C01_toric2d_all_stabilizers_commute_for_all_sizes.
+
+Theorem C01_toric2d_logicals_commute_with_stabilizers_for_all_sizes :
+  forall (Lx Ly : BinNums.Z) s, (2 <= Lx)%Z -> (2 <= Ly)%Z -> In s (stab_coords Lx Ly) ->
+  (is_vertex s = true -> overlap_par (support Lx Ly s) (lx1 Lx) = false /\ overlap_par (support Lx Ly s) (lx2 Ly) = false) /\
+  (is_vertex s = false -> overlap_par (support Lx Ly s) (lz1 Ly) = false /\ overlap_par (support Lx Ly s) (lz2 Lx) = false).
+Proof. exact toric2d_logicals_commute_with_stabilizers. Qed.
+Print Assumptions C01_toric2d_logicals_commute_with_stabilizers_for_all_sizes.
